@@ -58,8 +58,9 @@ def progOfKeys : List FmtKey → Prog
   | k :: ks => .formatName k fun _ => progOfKeys ks
 
 /-- The concrete stand-ins the driver uses for the opaque code: the C04/C11/C12 models for names,
-and for the two test styles the `format.name$` calls they make for entries that have an `author`
-(`plain` additionally formats every name for the sort key in `presort`). -/
+and for the test styles the `format.name$` calls they make for entries that have an `author`
+(`plain` additionally formats every name for the sort key in `presort`; the check's own
+`corpus/C18/tiny.bst` asks for name number 1 and 2 of every author field). -/
 def drvFns : Fns where
   splitNames := splitNameList
   formatOne := fun name fmt =>
@@ -82,8 +83,12 @@ def drvFns : Fns where
   bstMacros := fun style => match dget Gen.styleMacros style with | some t => t | none => []
   bst := fun style r =>
     let authors := r.entries.filterMap authorOf
-    let sortKeys := if style = "plain".toList then (authors.map (keysFor sortFmt)).flatten else []
-    progOfKeys (sortKeys ++ (authors.map (keysFor nameFmt)).flatten)
+    if style = "tiny".toList then
+      -- corpus/C18/tiny.bst: name number 1 and name number 2 of every author field, entry by entry
+      progOfKeys (authors.map fun a => [⟨a, 1, nameFmt⟩, ⟨a, 2, nameFmt⟩]).flatten
+    else
+      let sortKeys := if style = "plain".toList then (authors.map (keysFor sortFmt)).flatten else []
+      progOfKeys (sortKeys ++ (authors.map (keysFor nameFmt)).flatten)
   python := fun style _ =>
     .findPlugin "pybtex.style.formatting".toList style fun o =>
       match o with
@@ -107,6 +112,13 @@ def parseCmd (j : Json) : Except String Cmd := do
       let parts ← (← a[1]!.getArr?).toList.mapM parsePart
       pure (name, parts)
     pure (.entry (← getStr j "type") (← getStr j "key") fs)
+  | "keyless" =>
+    let fs ← (← getArr j "fields").mapM fun f => do
+      let a ← f.getArr?
+      let name ← jsonToStr a[0]!
+      let parts ← (← a[1]!.getArr?).toList.mapM parsePart
+      pure (name, parts)
+    pure (.keyless (← getStr j "type") fs)
   | _ => throw s!"unknown command kind {k}"
 
 def parseDoc (j : Json) : Except String Doc := do (← j.getArr?).toList.mapM parseCmd
@@ -122,7 +134,11 @@ def parseCall : Nat → Json → Except String Call
   | fuel + 1, j => do
     let c ← (← j.getObjVal? "c").getStr?
     match c with
-    | "parse" => pure (.parse (← (← getArr j "files").mapM parseDoc))
+    | "parse" =>
+      let files ← (← getArr j "files").mapM parseDoc
+      match j.getObjVal? "cits" with
+      | .ok (.arr a) => pure (.parseWanted (← a.toList.mapM jsonToStr) files)     -- `wanted_entries=cits`
+      | _ => pure (.parse files)
     | "lowlevel" =>
       let a ← j.getObjVal? "arg"
       let arg ← match a with
@@ -136,6 +152,7 @@ def parseCall : Nat → Json → Except String Call
     | "python" => pure (.pythonRun (← getStr j "style") (← (← getArr j "files").mapM parseDoc))
     | "capture" => pure (.capture (← parseCall fuel (← j.getObjVal? "call")))
     | "nonstrict" => pure (.nonstrict (← parseCall fuel (← j.getObjVal? "call")))
+    | "climain" => pure (.cliMain (← getBool j "strict") (← parseCall fuel (← j.getObjVal? "call")))
     | _ => throw s!"unknown call {c}"
 
 def errJ : Err → Json
@@ -145,6 +162,7 @@ def errJ : Err → Json
   | .invalidName n => arr [Json.str "InvalidNameString", strToJson n]
   | .pluginNotFound g n => arr [Json.str "PluginNotFound", strToJson (g ++ ".".toList ++ n)]
   | .indexError => arr [Json.str "IndexError", Json.str ""]
+  | .noSuchName n names => arr [Json.str "BibTeXError", strToJson ("name ".toList ++ (toString n).toList ++ "/".toList ++ names)]
   | .other tag => arr [strToJson tag, Json.str ""]
 
 def tableJ (t : Table) : Json := arr (t.map fun p => arr [strToJson p.1, strToJson p.2])
@@ -158,6 +176,7 @@ def lowJ : LowCmd → Json
   | .string n v => arr [Json.str "string", strToJson n, strs v]
   | .preamble v => arr [Json.str "preamble", strs v]
   | .entry t k fs => arr [Json.str "entry", strToJson t, strToJson k, arr (fs.map fun p => arr [strToJson p.1, strs p.2])]
+  | .keyless t fs => arr [Json.str "entry", strToJson t, Json.null, arr (fs.map fun p => arr [strToJson p.1, strs p.2])]
 
 def resultJ : Result → Json
   | .reader r => obj [("entries", arr (r.entries.map entryJ)), ("preamble", strs r.preamble), ("macros", tableJ r.macros)]
@@ -166,6 +185,7 @@ def resultJ : Result → Json
   | .raised e => obj [("raised", errJ e)]
   | .internal => Json.str "INTERNAL"
   | .captured r errs => obj [("res", resultJ r), ("errors", arr (errs.map errJ))]
+  | .exit code => obj [("exit", nat code)]
 
 def keyJ (k : FmtKey) : Json := arr [strToJson k.names, int k.n, strToJson k.fmt]
 
